@@ -236,3 +236,15 @@ func Safe(f func()) (panicked string) {
 	f()
 	return ""
 }
+
+// PropRunner is what each property package registers from init().
+type PropRunner struct {
+	Run    func(*Ctx)
+	Replay func(*Ctx, map[string]interface{})
+}
+
+var Registry = map[string]PropRunner{}
+
+func Register(id string, run func(*Ctx), replay func(*Ctx, map[string]interface{})) {
+	Registry[id] = PropRunner{run, replay}
+}
